@@ -372,7 +372,9 @@ func genbankFeatureParser(gb *GenBank, depth int) pars.Parser {
 
 func genbankContigParser(gb *GenBank, depth int) pars.Parser {
 	fieldNameParser := genbankFieldNameParser("CONTIG", depth)
-	untilColon := pars.Until(byte(':'))
+	// The accession ends at the colon, on this line: do not go looking for a
+	// colon through the rest of the input.
+	untilColon := pars.Until(pars.Any(byte(':'), byte('\n')))
 	l, m, r := pars.String("join("), pars.String(".."), pars.Byte(')')
 	return func(state *pars.State, result *pars.Result) error {
 		if err := fieldNameParser(state, result); err != nil {
@@ -385,6 +387,9 @@ func genbankContigParser(gb *GenBank, depth int) pars.Parser {
 			return err
 		}
 		accession := string(result.Token)
+		if c, err := pars.Next(state); err != nil || c != ':' {
+			return pars.NewError("expected `:`", state.Position())
+		}
 		pars.Skip(state, 1)
 		if err := pars.Int(state, result); err != nil {
 			return err
